@@ -988,11 +988,24 @@ func crashes(c *vk.C, dir string) {
 		c.Count("strace_unavailable", 1)
 	}
 
+	// the families are interleaved (seeded shuffle) so that each gets its share early; a wall-clock safety valve stops launching
+	// new jobs late in the run on an overloaded machine (it only limits how much is explored - every job that runs is judged as usual)
+	rng.Shuffle(len(jobs), func(i, j int) { jobs[i], jobs[j] = jobs[j], jobs[i] })
+
+	began := time.Now()
+	budget := time.Duration(c.N(6, 100)) * time.Minute
+
 	var wg sync.WaitGroup
 
 	sem := make(chan struct{}, 8)
 
 	for ji, jb := range jobs {
+		if time.Since(began) > budget {
+			c.Count("crash_jobs_not_started_time_budget", len(jobs)-ji)
+
+			break
+		}
+
 		wg.Add(1)
 		sem <- struct{}{}
 
